@@ -21,22 +21,29 @@ ASSUME = [
 ]
 
 STRAIGHT = ["assume"] * 6 + ["assign"] * 4 + ["forget"] * 2 + ["bounds"] * 2 + ["copy", "normalize"]
+# split_oct_domain::operator& / &= is a recorded finding (known_findings.json): the octagon
+# streams contain no meet; meets on octagons live in the dedicated stream "oct-meet", whose
+# histories are small enough for the exhaustive oracle to decide every answer.
+NOMEET = ["assume"] * 9 + ["join"] * 4 + ["forget"] * 2 + ["copy"] * 2 + ["normalize", "q_leq", "q_leq", "top", "bounds", "bounds", "assign", "assign"]
+OCTMEET = ["assume"] * 5 + ["meet"] * 3 + ["join", "forget", "copy", "q_leq", "bounds"]
 
 
 def streams(tier):
     q = tier == "quick"
     N = lambda a, b: a if q else b
+    small = graphdom.KS_SMALL
     return [
         # name, mode, lang, n, opts, oracle on every line?
         ("zones", "zones", "zone", N(500, 20000), dict(params=True), False),
         ("zones-safe", "zones-safe", "zone", N(150, 5000), dict(params=True), False),
-        ("sparse", "sparse", "zone", N(300, 10000), dict(), False),
-        ("oct", "oct", "oct", N(500, 20000), dict(params=True, maxvars=4), False),
-        ("oct-zone-lang", "oct", "zone", N(150, 5000), dict(params=True, maxvars=4), False),
+        ("sparse", "sparse", "zone", N(300, 10000), dict(params=True), False),
+        ("oct", "oct", "oct", N(500, 20000), dict(params=True, maxvars=4, ops=NOMEET), False),
+        ("oct-zone-lang", "oct", "zone", N(150, 5000), dict(params=True, maxvars=4, ops=NOMEET), False),
+        ("oct-meet", "oct", "oct", N(120, 3000), dict(params=True, ks=small, maxvars=3, minops=3, maxops=7, maxq=2, ops=OCTMEET, boundary=False, corpus_must="meet"), True),
         ("itv", "itv", "interval", N(200, 5000), dict(), False),
-        ("zones-small", "zones", "zone", N(80, 2000), dict(params=True, ks=graphdom.KS_SMALL, maxvars=3, maxops=10, maxq=3), True),
-        ("oct-small", "oct", "oct", N(60, 2000), dict(params=True, ks=graphdom.KS_SMALL, maxvars=3, maxops=8, maxq=3), True),
-        ("itv-small", "itv", "interval", N(60, 2000), dict(ks=graphdom.KS_SMALL, maxvars=3, maxops=10), True),
+        ("zones-small", "zones", "zone", N(80, 2000), dict(params=True, ks=small, maxvars=3, maxops=10, maxq=3), True),
+        ("oct-small", "oct", "oct", N(60, 2000), dict(params=True, ks=small, maxvars=3, maxops=8, maxq=3, ops=NOMEET), True),
+        ("itv-small", "itv", "interval", N(60, 2000), dict(ks=small, maxvars=3, maxops=10), True),
         ("lift-bool-zones", "lift-bool-zones", "zone", N(100, 3000), dict(ops=STRAIGHT), False),
         ("lift-smash-zones", "lift-smash-zones", "zone", N(100, 3000), dict(ops=STRAIGHT), False),
         ("lift-prod-itv-zones", "lift-prod-itv-zones", "zone", N(100, 3000), dict(ops=STRAIGHT), False),
